@@ -407,6 +407,17 @@ FUNC_POINTS = {
 }
 
 
+# arguments whose function value is tiny but an ordinary double (far above the subnormal range): nothing is "noise" there
+for _f in ("sin", "tan", "arcsin", "arctan", "sinh", "tanh", "arcsinh", "arctanh"):
+    FUNC_POINTS[_f] = FUNC_POINTS[_f] + ["1e-17", "2e-20", "-3e-19"]
+FUNC_POINTS["exp"] = FUNC_POINTS["exp"] + ["-40", "-100", "-37.5"]
+FUNC_POINTS["sqrt"] = FUNC_POINTS["sqrt"] + ["1e-40", "4e-36"]
+FUNC_POINTS["cos"] = FUNC_POINTS["cos"] + ["1.5707963267948966", "4.71238898038469"]
+FUNC_POINTS["log"] = FUNC_POINTS["log"] + ["1.0000000000000002", "0.9999999999999999"]
+FUNC_POINTS["arccos"] = FUNC_POINTS["arccos"] + ["0.9999999999999999"]
+FUNC_POINTS["arccosh"] = FUNC_POINTS["arccosh"] + ["1.0000000000000002"]
+
+
 def _slice(task):
     """one slice (fixed first operand and first unary prefix) of one family: generated and checked in the worker"""
     specs, nospace, first = task
@@ -569,7 +580,7 @@ def run(ctx):
     st, vr = _prep(fitems)
     stats.update(st)
     V.merge(vr)
-    bounds.append({"family": "15 functions x 6 domain points incl. boundaries", "token_strings": len(fitems), "in_domain_checked": st.get("checked", 0)})
+    bounds.append({"family": "15 functions x 6-9 domain points incl. boundaries and arguments with tiny (1e-17 .. 1e-44) results", "token_strings": len(fitems), "in_domain_checked": st.get("checked", 0)})
     cov = {
         "evaluations": stats["checked"] + lst["checked"], "distinct_nontrivial": stats["nontrivial"] + lst["checked"],
         "rule": "all well-formed token strings of the families in `bounds` (every operand tuple x unary prefix x operator tuple x bracket/function span set), each evaluated by the implementation "
